@@ -287,7 +287,16 @@ static std::string step(Pool &p, Rng &r)
         Slot &y = p.s[j];
         if (!y.p) { va::HarnessScope hs; p.make(y); }
         bool th = !x.inside(ss.raw_buffer()), sh = !y.inside(y.p->raw_buffer());
-        if (i == j) break;
+        if (i == j) {
+            // self-move: the stream may keep its content or end up empty (a moved-from stream is a valid empty stream) -
+            // nothing else; the structural monitors then look at it like at any other stream
+            SS &self = ss;
+            ss = std::move(self);
+            { va::HarnessScope hs; if (ss.size() == 0) x.model.clear(); }
+            snprintf(d, sizeof(d), "ss%zu(%s)=move(ss%zu) [self]", i, th ? "heap" : "obj", i);
+            vrt::count("op.move_assign.self");
+            break;
+        }
         ss = std::move(*y.p);
         { va::HarnessScope hs; x.model = y.model; y.model.clear(); }
         snprintf(d, sizeof(d), "ss%zu(%s)=move(ss%zu(%s))", i, th ? "heap" : "obj", j, sh ? "heap" : "obj");
@@ -352,6 +361,7 @@ static void body()
     vrt::require("op.erase", 1000);
     vrt::require("op.insert_null_pointer", 500);
     vrt::require("op.insert_text_with_U+0000", 500);
+    vrt::require("op.move_assign.self", 200);
     vrt::require("op.move_assign.heap<-heap", 200);
     vrt::require("op.move_assign.heap<-obj", 200);
     vrt::require("op.move_assign.obj<-heap", 200);
